@@ -21,6 +21,11 @@ pub enum Dev {
     Repeat(String, usize),
     Set(String, Value),
     DropDynamic,
+    /// a continuous page header appended to the public input: (size, prod) as hex
+    AddPageHeader(String, String),
+    /// the composition table re-declared as ONE column whose cells are the hashes of the honest rows: the
+    /// Merkle openings still hold (a one-column row is its own leaf), the number of cells per query does not
+    CompositionPrehashed,
 }
 impl Dev {
     pub fn apply(&self, v: &mut Value) -> bool {
@@ -72,6 +77,34 @@ impl Dev {
                 _ => false,
             },
             Dev::DropDynamic => v.get_mut("public_input").and_then(|p| p.as_object_mut()).map(|o| o.remove("dynamic_params").is_some()).unwrap_or(false),
+            Dev::AddPageHeader(size, prod) => match v["public_input"]["continuous_page_headers"].as_array_mut() {
+                Some(a) => {
+                    a.push(json!({"start_address": "0x100000", "size": size, "hash": "0x1234", "prod": prod}));
+                    true
+                }
+                None => false,
+            },
+            Dev::CompositionPrehashed => {
+                let height = match v["config"]["composition"]["vector"]["height"].as_str().and_then(|h| Felt::from_hex(h).ok()) {
+                    Some(h) => crate::kit::f2b(&h).to_u64_digits().first().cloned().unwrap_or(0) as u32,
+                    None => return false,
+                };
+                let nf = match v["config"]["composition"]["vector"]["n_verifier_friendly_commitment_layers"].as_str().and_then(|h| Felt::from_hex(h).ok()) {
+                    Some(h) => crate::kit::f2b(&h).to_u64_digits().first().cloned().unwrap_or(0),
+                    None => return false,
+                };
+                let vals: Vec<Felt> = match v["witness"]["composition_decommitment"]["values"].as_array() {
+                    Some(a) => a.iter().filter_map(|x| x.as_str().and_then(|h| Felt::from_hex(h).ok())).collect(),
+                    None => return false,
+                };
+                if vals.len() < 2 || vals.len() % 2 != 0 {
+                    return false;
+                }
+                let leaves: Vec<Value> = vals.chunks(2).map(|r| Value::String(fhex(&crate::refm::merkle::row_leaf(crate::refm::merkle::Variant::of_build(), r, height, nf)))).collect();
+                v["witness"]["composition_decommitment"]["values"] = Value::Array(leaves);
+                v["config"]["composition"]["n_columns"] = Value::String("0x1".into());
+                true
+            }
         }
     }
     pub fn class(&self) -> String {
@@ -84,6 +117,8 @@ impl Dev {
             Dev::Repeat(p, k) => format!("{}:repeat{}", pc(p), k),
             Dev::Set(p, _) => format!("{}:set", pc(p)),
             Dev::DropDynamic => "public_input.dynamic_params:drop".into(),
+            Dev::AddPageHeader(..) => "public_input.continuous_page_headers:add".into(),
+            Dev::CompositionPrehashed => "composition:one-column-prehashed".into(),
         }
     }
     pub fn to_json(&self) -> Value {
@@ -95,6 +130,8 @@ impl Dev {
             Dev::Repeat(p, k) => json!({"op": "repeat", "path": p, "k": k}),
             Dev::Set(p, x) => json!({"op": "set", "path": p, "value": x}),
             Dev::DropDynamic => json!({"op": "drop_dynamic"}),
+            Dev::AddPageHeader(a, b) => json!({"op": "add_page_header", "size": a, "prod": b}),
+            Dev::CompositionPrehashed => json!({"op": "composition_prehashed"}),
         }
     }
     pub fn from_json(v: &Value) -> Option<Dev> {
@@ -107,6 +144,8 @@ impl Dev {
             "repeat" => Dev::Repeat(p()?, v.get("k")?.as_u64()? as usize),
             "set" => Dev::Set(p()?, v.get("value")?.clone()),
             "drop_dynamic" => Dev::DropDynamic,
+            "add_page_header" => Dev::AddPageHeader(v.get("size")?.as_str()?.to_string(), v.get("prod")?.as_str()?.to_string()),
+            "composition_prehashed" => Dev::CompositionPrehashed,
             _ => return None,
         })
     }
@@ -400,6 +439,13 @@ pub fn run(ctx: &Ctx) -> Report {
             jobs.push((vec![d], Subject::VerifyPublicInput));
         }
         jobs.push((vec![Dev::DropDynamic], Subject::Verify));
+        jobs.push((vec![Dev::CompositionPrehashed], Subject::Verify));
+        for (size, prod) in [("0x0", "0x0"), ("0x1", "0x0"), ("0x1", "0x1"), ("0x0", "0x1"), ("0x10000000000000000", "0x5"),
+            ("0x800000000000011000000000000000000000000000000000000000000000000", "0x5"), ("0x3", "0x800000000000011000000000000000000000000000000000000000000000000")] {
+            for sub in [Subject::Verify, Subject::ValidatePublicInput, Subject::VerifyPublicInput] {
+                jobs.push((vec![Dev::AddPageHeader(size.into(), prod.into())], sub));
+            }
+        }
         if !quick {
             // pairs: a vector deviation together with the count field governing it; two config numbers
             let gov: Vec<(&str, &str)> = vec![
